@@ -6,7 +6,13 @@ with latencies {None, <0, 0, 1e-9, ...} while tasks sleep holding the main
 lock, burner threads spin and the switch interval is 1 us; datagrams are
 captured at `_send` of the OscUdpInterface instance, decoded by vf/osc.py and
 every timetag is compared as an integer with int((L + t) * 2**32) + offset,
-t = clock.seconds read in the routine.  Sends from the main thread (quiet,
+t = clock.seconds read in the routine.  A second group of routines is started
+with SystemClock.sched_abs / TempoClock.sched_abs at known times and yields
+known deltas: their timetags are also compared with the INDEPENDENT
+expectation int((L + start + sum(deltas)) * 2**32) + offset (exact on
+SystemClock, 1e-9 s on TempoClock), with equal / past start times, a slow task
+and a thread holding the main lock so that several tasks with different
+scheduled times are due in one wake-up cycle.  Sends from the main thread (quiet,
 holding the main lock, and unlocked while clocks run) are checked against the
 closed interval [call time, return time].  Half of the rounds forward the
 datagrams to the library's own UDP port: OscFunc callbacks must receive
@@ -49,6 +55,9 @@ MIN_COUNTERS = {
     'rt_routine_sends/SystemClock': 50,
     'rt_routine_sends/TempoClock': 50,
     'rt_routine_sends/AppClock': 20,
+    'rt_independent_timetags_compared/SystemClock': 100,
+    'rt_independent_timetags_compared/TempoClock': 60,
+    'rt_independent_wakeups_batched_with_other_times': 30,
     'rt_main_thread_timetags_compared': 100,
     'rt_incoming_compared': 50,
     'nrt_scores': 200,
